@@ -10,6 +10,7 @@ import json, os, struct, sys, time
 from concurrent.futures import ThreadPoolExecutor
 import framework as F
 import floatbase
+import cov_evidence
 sys.path.insert(0, os.path.join(F.VERIF, "translate"))
 import conv2coq           # noqa: E402
 import sampletable2coq    # noqa: E402
@@ -17,7 +18,7 @@ import sampletable2coq    # noqa: E402
 PROP = "C03"
 META = dict(
     technique="Coq proof over generated conversions + generated companion table + hand model of dasp_frame; coqc-evaluated model vs crates correspondence (debug + release)",
-    text="translate/sampletable2coq.py reads the impl_sample! table (Signed, Float, EQUILIBRIUM per format) and pins the text of Sample::{to_signed_sample,to_float_sample,add_amp,mul_amp}; Sample/SampleOps.v composes them from the conversions generated from conv.rs (C01) and the I24/I48 operator model (C15). Coq 8.16.1 proves: the table facts; add_amp s 0 = s (all 14 formats, both profiles); mul_amp s 0.0 = equilibrium and mul_amp s 1.0 = s exactly for the formats that fit the float companion's mantissa (8/16/24-bit with f32, 48-bit with f64), with explicit counterexamples for the 32/64-bit formats; for those wide formats (i32/u32 with f32, i64/u64 with f64), every in-range sample and both profiles: mul_amp s 1.0 does not panic, equals min(MAX, equilibrium + RNE(amplitude)) (RNE = Flocq's round-to-nearest-even of the integer amplitude to 24 / 53 bits; the top end relies on the saturating float->int cast, the float being exactly 1.0 there), is in range and within 2^(bits-prec-2) (64 / 512, attained) of the sample, hence exact whenever the amplitude fits the mantissa; add_amp = re-centred integer addition, Ok iff the signed sum is representable; for EVERY channel count N and every frame: Frame::map/zip_map/from_fn through the unchecked indexing never hit UB and equal the in-order per-channel traversal (call order included), from_samples returns Some(firstn N) iff the iterator has N items, consumes exactly min(N, len) items and never reads an unwritten slot, every amplitude method is the per-channel sample method in channel order, channels()/channel(i) enumerate the frame, any script of iterator steps (next, nth, skip, step_by, count, last, len) on one channels() iterator behaves as the list iterator over the channels (provided methods of core::iter modelled from next()), and a bare sample behaves as the 1-channel frame. The model is tied to the crates by running it inside coqc on the same cases as the real code (public trait methods, 232 array monomorphisations N=1..32 + 14 mono impls, call-order-recording FnMut closures, counting iterators, panics observed).",
+    text="translate/sampletable2coq.py reads the impl_sample! table (Signed, Float, EQUILIBRIUM per format) and pins the text of Sample::{to_signed_sample,to_float_sample,add_amp,mul_amp}; Sample/SampleOps.v composes them from the conversions generated from conv.rs (C01) and the I24/I48 operator model (C15). Coq 8.16.1 proves: the table facts; add_amp s 0 = s (all 14 formats, both profiles); mul_amp s 0.0 = equilibrium and mul_amp s 1.0 = s exactly for the formats that fit the float companion's mantissa (8/16/24-bit with f32, 48-bit with f64), with explicit counterexamples for the 32/64-bit formats; for those wide formats (i32/u32 with f32, i64/u64 with f64), every in-range sample and both profiles: mul_amp s 1.0 does not panic, equals min(MAX, equilibrium + RNE(amplitude)) (RNE = Flocq's round-to-nearest-even of the integer amplitude to 24 / 53 bits; the top end relies on the saturating float->int cast, the float being exactly 1.0 there), is in range and within 2^(bits-prec-2) (64 / 512, attained) of the sample, hence exact whenever the amplitude fits the mantissa; add_amp = re-centred integer addition, Ok iff the signed sum is representable; for EVERY channel count N and every frame: Frame::map/zip_map/from_fn through the unchecked indexing never hit UB and equal the in-order per-channel traversal (call order included), from_samples returns Some(firstn N) iff the iterator has N items, consumes exactly min(N, len) items and never reads an unwritten slot, every amplitude method is the per-channel sample method in channel order, channels()/channel(i) enumerate the frame, any script of iterator steps (next, nth, skip, step_by, count, last, len) on one channels() iterator behaves as the list iterator over the channels (provided methods of core::iter modelled from next()), and a bare sample behaves as the 1-channel frame; a clone of a channels() iterator continues from the original's position and leaves it alone; channel_mut(idx) is Some exactly when channel(idx) is and a write through it (or through channel_unchecked_mut inside the bounds, without UB) changes that channel only, writes through channels_mut() land on the channels front to back (through rev(): back to front) (c03_channel_mut, c03_channels_mut_write, c03_mono_mut). The model is tied to the crates by running it inside coqc on the same cases as the real code (public trait methods, 232 array monomorphisations N=1..32 + 14 mono impls, call-order-recording FnMut closures, counting iterators, panics observed).",
     note="Trusted: Coq kernel; translate/conv2coq.py + translate/sampletable2coq.py; Sample/Rint.v, Sample/TypesModel.v, Base/Float.v (Flocq) as the meaning of Rust's integer / I24 / IEEE operators; core::array::from_fn and core::array::map call their closure in index order (std documentation); harness + generators. Several frame theorems are near-definitional in a functional model: their content is the absence of UB in the unchecked-index code and the pinned correspondence. Axioms: the standard real-number axioms through Flocq for the float identities only.",
     design="6/C03")
 HEADER = "From Dasp Require Import Sample.ConvRun Frame.FrameRun.\nRequire Import Uint63."
@@ -27,7 +28,9 @@ HEADER_U = "From Dasp Require Import Frame.FrameRunU.\nRequire Import Uint63."
 CHECK_U = "checku"
 OPCODE = {"sadd": 1, "smul": 2, "ssig": 3, "sflt": 4, "seq": 5, "map": 6, "zip": 7, "fromfn": 8, "fromsamples": 9,
           "channels": 10, "channel": 11, "offset": 12, "scale": 13, "addf": 14, "mulf": 15, "tosigned": 16, "tofloat": 17,
-          "equil": 18, "mapba": 19, "mapab": 20, "addfa": 21, "iter": 22}
+          "equil": 18, "mapba": 19, "mapab": 20, "addfa": 21, "iter": 22,
+          # round 3 (whole Frame / Sample surface): ssigf / sfltf are the from_sample spelling of ssig / sflt (same model op)
+          "ssigf": 3, "sfltf": 4, "sid": 23, "nch": 24, "chmut": 25, "chun": 26, "chunmut": 27, "chw": 28}
 
 NAMES = ["i8", "i16", "I24", "i32", "I48", "i64", "u8", "u16", "U24", "u32", "U48", "u64", "f32", "f64"]
 CODE = {n: i for i, n in enumerate(NAMES)}
@@ -277,6 +280,12 @@ COQ_OP = {
     "mapba": lambda a: f"ZMapBA {zl(a[0])} {zl(a[1])}", "mapab": lambda a: f"ZMapAB {zl(a[0])} {zl(a[1])}",
     "addfa": lambda a: f"ZAddFA {zl(a[0])} {zl(a[1])}",
     "iter": lambda a: f"ZIter {zt(a[0][0])} {zl(a[1])} {zl(a[2])}",
+    "ssigf": lambda a: f"ZSSigned {zt(a[0][0])}", "sfltf": lambda a: f"ZSFloat {zt(a[0][0])}",
+    "sid": lambda a: "ZSIdentity", "nch": lambda a: "ZNumChannels",
+    "chmut": lambda a: f"ZChannelMut {zl(a[0])} {zt(a[1][0])} {zt(a[2][0])}",
+    "chun": lambda a: f"ZChannelUnchecked {zl(a[0])} {zt(a[1][0])}",
+    "chunmut": lambda a: f"ZChannelUncheckedMut {zl(a[0])} {zt(a[1][0])} {zt(a[2][0])}",
+    "chw": lambda a: f"ZChannelsMutWrite {zl(a[0])} {zl(a[1])} {zt(a[2][0])}",
 }
 
 
@@ -292,13 +301,13 @@ def build(item, ops=None):
 
 
 def sample_ops(r, n, count):
-    ops = [["seq", []]]
+    ops = [["seq", []], ["sid", []]]
     sg, fl = SIGNED_OF[n], float_of(n)
     lo, hi = rng_of(n) if not is_float(n) else (0, 0)
     fixed = [lo, lo + 1, hi - 1, hi, half(n), half(n) + 1, half(n) - 1] if not is_float(n) else [fbits(n, x) for x in FSPECIAL]
     one, zero = fbits(fl, 1.0), fbits(fl, 0.0)
     for v in fixed:
-        ops += [["sadd", [v, 0]], ["smul", [v, zero]], ["smul", [v, one]], ["ssig", [v]], ["sflt", [v]]]
+        ops += [["sadd", [v, 0]], ["smul", [v, zero]], ["smul", [v, one]], ["ssig", [v]], ["sflt", [v]], ["ssigf", [v]], ["sfltf", [v]]]
     if is_wide(n):
         ops += [["smul", [v, one]] for v in wide_one_values(r, n)]
     for _ in range(count):
@@ -309,9 +318,9 @@ def sample_ops(r, n, count):
         elif k < 8:
             ops.append(["smul", [v, r.choice([one, zero, gain(r, n), gain(r, n)])]])
         elif k == 8:
-            ops.append(["ssig", [v]])
+            ops.append([r.choice(["ssig", "ssigf"]), [v]])
         else:
-            ops.append(["sflt", [v]])
+            ops.append([r.choice(["sflt", "sfltf"]), [v]])
     return ops
 
 
@@ -319,11 +328,12 @@ def iter_scripts(r, N, kind):
     """scripts (flat triples code a b) on ONE iterator: structured ones that apply nth / skip / step_by / count /
     last / len to a PARTLY CONSUMED (and to an exhausted) iterator, plus random ones"""
     back = kind != 0
+    cl = [9, 0, 0] if kind != 2 else []    # clone the iterator, next() and len() on the clone (ChannelsMut is not Clone)
     k1, k2 = r.below(N + 1), r.below(N + 2)
     sc = [
-        [0, 0, 0, 0, 0, 0, 1, 0, 0, 6, 0, 0, 1, 0, 0],                       # next, next, nth(0), len, nth(0)
-        [0, 0, 0, 2, k1 % 3, 0, 6, 0, 0, 3, 1 + k2 % 3, N + 1, 6, 0, 0],     # next, skip(k).next(), len, step_by, len
-        [1, k1, 0, 1, 0, 0, 2, 0, 0, 4, 0, 0, 1, 0, 0, 0, 0, 0, 6, 0, 0],    # nth(k), nth(0), skip(0).next(), count, nth(0), next, len
+        [0, 0, 0, 0, 0, 0] + cl + [1, 0, 0, 6, 0, 0, 1, 0, 0],               # next, next, clone, nth(0), len, nth(0)
+        [0, 0, 0, 2, k1 % 3, 0, 6, 0, 0, 3, 1 + k2 % 3, N + 1] + cl + [6, 0, 0],     # next, skip(k).next(), len, step_by, clone, len
+        cl + [1, k1, 0, 1, 0, 0, 2, 0, 0, 4, 0, 0, 1, 0, 0, 0, 0, 0] + cl + [6, 0, 0],    # clone (fresh), nth(k), nth(0), skip(0).next(), count, nth(0), next, clone (exhausted), len
         [0, 0, 0, 3, 2, max(1, N // 2), 5, 0, 0, 1, 0, 0],                   # next, step_by(2).take, last, nth(0) on exhausted
     ]
     if back:
@@ -331,7 +341,7 @@ def iter_scripts(r, N, kind):
     for _ in range(2):
         steps = []
         for _ in range(r.range(3, 7)):
-            c = r.choice([0, 0, 1, 1, 2, 2, 3, 4, 5, 6, 6] + ([7, 7, 8] if back else []))
+            c = r.choice([0, 0, 1, 1, 2, 2, 3, 4, 5, 6, 6] + ([7, 7, 8] if back else []) + ([9, 9] if kind != 2 else []))
             a = r.range(1, 4) if c == 3 else r.below(N + 2) if c in (1, 2) else r.below(N + 1) if c == 8 else 0
             b = r.below(N + 2) if c == 3 else 0
             steps += [c, a, b]
@@ -363,7 +373,17 @@ def frame_ops(r, n, N, bare, full_short):
         ops.append(["scale", fr, [fbits(fl, r.choice([1.0, 0.0]))]])
     ops.append(["addf", fr, other_s])
     ops.append(["mulf", fr, [gain(r, n) for _ in range(N)]])
-    ops += [["tosigned", fr], ["tofloat", fr], ["equil"]]
+    ops += [["tosigned", fr], ["tofloat", fr], ["equil"], ["nch"]]
+    # the mutable / unchecked accessors: writes through channel_mut (in and out of range), channel_unchecked(_mut) inside
+    # the bounds, writes through channels_mut() from both ends with fewer, as many and more new values than channels
+    for i in sorted({N - 1, N, r.below(N), N + 1 + r.below(40)}):
+        ops.append(["chmut", fr, [i], [val(r, n)]])
+    for i in sorted({0, N - 1, r.below(N)}):
+        ops.append(["chun", fr, [i]])
+    for i in sorted({N - 1, r.below(N)}):
+        ops.append(["chunmut", fr, [i], [val(r, n)]])
+    for k, dr in ((r.below(N + 1), 0), (max(0, N - 1 - r.below(2)), 1), (N + r.below(3), r.below(2))):
+        ops.append(["chw", fr, [val(r, n) for _ in range(k)], [dr]])
     if bare:
         ops += [["mapba", fr, outs], ["mapab", fr, outs], ["addfa", fr, other_s]]
         # a mono closure that is handed too few outputs panics inside from_fn(0): index panic observed and modelled
@@ -416,10 +436,20 @@ def nontrivial_ops(it, obs_parts):
             # a position-dependent step (nth / skip / step_by / count / last / len / next_back) applied after the
             # iterator has already been advanced by an earlier step of the same script
             sc = o[3]
-            if len(sc) > 3 and any(sc[j] != 0 for j in range(3, len(sc), 3)):
+            if len(sc) > 3 and any(sc[j] != 0 for j in range(3, len(sc), 3)):    # includes a clone (9) of an advanced iterator
                 out.append(i)
         elif name == "fromfn":
             if N >= 2 and len(set(o[1])) > 1:
+                out.append(i)
+        elif name in ("chmut", "chunmut"):
+            # a write that lands on a channel other than the first of a frame with distinct channels, or is refused
+            if (N >= 2 and o[2][0] > 0 and len(set(o[1])) > 1) or (name == "chmut" and o[2][0] >= N):
+                out.append(i)
+        elif name == "chun":
+            if N >= 2 and o[2][0] > 0 and len(set(o[1])) > 1:
+                out.append(i)
+        elif name == "chw":
+            if N >= 2 and 0 < len(o[2]) < N:
                 out.append(i)
     return out
 
@@ -583,6 +613,13 @@ def main(rep, tier, seed):
                     key = "iter:" + ("channels" if op[1][0] == 0 else "channels_ref" if op[1][0] == 1 else "channels_mut")
                     h[key] = h.get(key, 0) + 1
                     h["iter_steps"] = h.get("iter_steps", 0) + len(op[3]) // 3
+                    h["iter_clone_steps"] = h.get("iter_clone_steps", 0) + sum(1 for j in range(0, len(op[3]), 3) if op[3][j] == 9)
+                if op[0] == "chmut":
+                    key = "chmut:" + ("in-range" if op[2][0] < it["n"] else "refused")
+                    h[key] = h.get(key, 0) + 1
+                if op[0] == "chw":
+                    key = "chw:" + ("front" if op[3][0] == 0 else "back") + ":" + ("short" if len(op[2]) < it["n"] else "exact" if len(op[2]) == it["n"] else "long")
+                    h[key] = h.get(key, 0) + 1
         stats["bad"] = len(bad)
         for k in (len(items) // 3, 2 * len(items) // 3):
             stats["samples"].append(f"[{'debug' if items[k]['mode'] == 0 else 'release'}] {items[k]['line'][:200]} -> {outl[k][:200]}")
@@ -623,8 +660,9 @@ def finish(rep, info, stats, times, fb):
         "regenerated_files": info.get("regenerated", []),
         "evaluations": stats.get("evaluations", 0), "cases": stats.get("cases", 0),
         "distinct_nontrivial": stats.get("nontrivial", 0),
-        "rule": "every op of every case is one evaluation, compared exactly (values, logs of closure calls, iterator call counts, panics). Cases: Sample::{add_amp,mul_amp,to_signed_sample,to_float_sample,EQUILIBRIUM} on boundary-structured + random values of all 14 formats; for i32/u32/i64/u64 additionally mul_amp(s, 1.0) on structured samples (MAX - t and MIN + t around half an ulp of the top binade -- the top ones saturate --, ties and near-ties of every binade above the mantissa, the last exactly representable amplitudes), every mul_amp(s, 1.0) result of the crate also compared with the theorems' closed form min(MAX, equilibrium + RNE(amplitude)) recomputed in exact integer arithmetic; every Frame method on [S; N] for N=1..32 over u8,i16,I24,u32,f32,f64 and N in {1,2,3,8,32} over the other 8 formats, and on every bare sample type; from_samples with every iterator length 0..N+2; iterator-adaptor scripts (structured: nth/skip/step_by/count/last/len on a partly consumed and on an exhausted iterator, next_back/rev on the slice-backed ones; plus random scripts) on ONE channels() / channels_ref() / channels_mut() instance for every (format, N) and every bare sample; both build profiles. non-trivial = an offset/scale/add_amp/mul_amp with a non-zero amplitude on an unsigned or custom-width (24/48-bit) format, or a frame op on N >= 2 channels with distinct values, or a from_samples with fewer than N items, or an iterator script with a position-dependent step after the iterator was advanced (distinct (format, N, op, arguments))",
-        "samples": stats.get("samples", []), "input_distribution": dict(stats.get("hist", {}), panic_observations=stats.get("panics", 0)),
+        "rule": "every op of every case is one evaluation, compared exactly (values, logs of closure calls, iterator call counts, panics). Cases: Sample::{add_amp,mul_amp,to_signed_sample,to_float_sample,EQUILIBRIUM} on boundary-structured + random values of all 14 formats; for i32/u32/i64/u64 additionally mul_amp(s, 1.0) on structured samples (MAX - t and MIN + t around half an ulp of the top binade -- the top ones saturate --, ties and near-ties of every binade above the mantissa, the last exactly representable amplitudes), every mul_amp(s, 1.0) result of the crate also compared with the theorems' closed form min(MAX, equilibrium + RNE(amplitude)) recomputed in exact integer arithmetic; every Frame method on [S; N] for N=1..32 over u8,i16,I24,u32,f32,f64 and N in {1,2,3,8,32} over the other 8 formats, and on every bare sample type; from_samples with every iterator length 0..N+2; iterator-adaptor scripts (structured: nth/skip/step_by/count/last/len on a partly consumed and on an exhausted iterator, next_back/rev on the slice-backed ones, clone-then-next/len of a fresh, a partly consumed and an exhausted channels() / channels_ref() iterator; plus random scripts) on ONE channels() / channels_ref() / channels_mut() instance for every (format, N) and every bare sample; Sample::from_sample spelling of to_signed_sample / to_float_sample, Sample::IDENTITY against FloatSample::IDENTITY, Frame::CHANNELS; writes through channel_mut (in range and refused), channel_unchecked / channel_unchecked_mut inside the bounds, writes through channels_mut() from the front and (rev) from the back with fewer, as many and more new values than channels, the frame read back afterwards; both build profiles. non-trivial = an offset/scale/add_amp/mul_amp with a non-zero amplitude on an unsigned or custom-width (24/48-bit) format, or a frame op on N >= 2 channels with distinct values, or a from_samples with fewer than N items, or an iterator script with a position-dependent step (clone included) after the iterator was advanced, or a write / unchecked read that addresses a channel other than the first of a frame with distinct channels or is refused, or a channels_mut write of fewer new values than channels (distinct (format, N, op, arguments))",
+        "samples": stats.get("samples", []), "input_distribution": dict(stats.get("hist", {}), panic_observations=stats.get("panics", 0),
+                                                                     source_regions_never_entered=cov_evidence.regions(PROP, "Derived impls (Clone of Channels / ChannelsRef) carry no llvm regions: the clone steps of the iterator scripts are counted in iter_clone_steps.")),
         "disagreements": stats.get("bad", 0), "scale_by_one_bound_checked": stats.get("scale_by_one_checked", 0),
         "scale_by_one_inexact_results": stats.get("scale_by_one_inexact", 0), "scale_by_one_saturated_at_max": stats.get("scale_by_one_saturated", 0), "timing": times, "float_model_validation": fb,
         "explanation": "theorems: identities of add_amp/mul_amp per format, re-centring, per-channel / in-order / no-UB theorems for every N; tie: translator for the companion table and conversions + the executable model run by coqc on the same cases as the crates through the public traits, all observations compared exactly",
